@@ -257,6 +257,16 @@ class LRI(dict):
             super().__delitem__(key)
             self._remove_from_ll(key)
 
+    def __contains__(self, key):
+        # an eviction deletes one dict entry and adds another: read under
+        # the lock so that other threads never see the state in between
+        with self._lock:
+            return super().__contains__(key)
+
+    def __len__(self):
+        with self._lock:
+            return super().__len__()
+
     def pop(self, key, default=_MISSING):
         # NB: hit/miss counts are bypassed for pop()
         with self._lock:
